@@ -16,7 +16,8 @@ readings) instantiated with the configuration regenerated from /repo on every ru
 * the record is a function of the instant — `RecOK` (the record is the one tabulated for the date's own UTC reading),
   `mk_carries_record_of_utc_day` (every constructed date is `RecOK`), `record_function_of_instant`,
   `record_function_of_instant_post1972` (no hypothesis on leap seconds: the leap table is monotone);
-* relabelling — `relabel_keeps_instant_and_record` (uniform scales, exact), `relabel_ut1_within_slack` (UT1: 1.5 µs);
+* relabelling — `relabel_keeps_instant_and_record` (uniform scales, exact), `relabel_ut1_within_slack` (UT1: 1.5 µs),
+  `relabel_any_within_slack` (TDB: 1.5 µs when the two evaluations of the TDB−TT term agree);
 * `date + t` — `add_carries_record_of_utc_day` (the result carries the record of ITS OWN UTC day, not the operand's),
   `add_function_of_instant` (same instant in two labels, same `t` ⇒ same instant and same record),
   `add_after_relabel`, `add_is_constructor`;
@@ -230,6 +231,15 @@ theorem relabel_ut1_within_slack {env : Env} {x y : Date} {new : Nat} (hx : WF c
     (hsc : x.scale ∈ noTdbIx) (hnew : new ∈ noTdbIx) (h : changeScale cfg env x new = .ok y) (hrec : y.eop = x.eop) :
     -15 ≤ y.inst - x.inst ∧ y.inst - x.inst ≤ 15 :=
   changeScale_instant_bound hx hsc hnew h hrec
+
+/-- **relabelling to or from TDB** (every pair of the six scales): when the offsets used by the two constructions agree
+(the TDB−TT term is evaluated at two `mjd` arguments 1e-10 s apart: a parameter of the model) the instant moves by at most
+1.5 µs (C03 `changeScale_instant_bound_partial`) -/
+theorem relabel_any_within_slack {env : Env} {x y : Date} {new : Nat} (hx : WF cfg env x)
+    (h : changeScale cfg env x new = .ok y)
+    (hdrift : ∀ off, offset cfg env x.scale new x.inst x.eop = .ok off → y.off + off = x.off) :
+    -15 ≤ y.inst - x.inst ∧ y.inst - x.inst ≤ 15 :=
+  changeScale_instant_bound_partial hx h hdrift
 
 /-! ## `date + timedelta` -/
 
